@@ -32,6 +32,70 @@ func regEntry(denom string, bits int) *tokenregistrytypes.RegistryEntry {
 
 func has(bits, p int) bool { return bits&p != 0 }
 
+// regList: the registry as (denom id, permission bits) in list order; ids of the harness for known denoms, else 60000+n.
+func regList(e *env.Env) [][2]int64 {
+	var out [][2]int64
+	for _, en := range e.App.TokenRegistryKeeper.GetRegistry(e.Ctx()).Entries {
+		if en == nil {
+			continue
+		}
+		out = append(out, [2]int64{denomIDAny(e, en.Denom), bitsOfPerms(en.Permissions)})
+	}
+	return out
+}
+
+func denomIDAny(e *env.Env, d string) int64 {
+	if i, ok := e.DenomID[d]; ok {
+		return i
+	}
+	h := int64(0)
+	for _, c := range d {
+		h = (h*131 + int64(c)) % 1000003
+	}
+	return 60000 + h
+}
+
+func bitsOfPerms(ps []tokenregistrytypes.Permission) int64 {
+	b := int64(0)
+	for _, p := range ps {
+		switch p {
+		case tokenregistrytypes.Permission_CLP:
+			b |= 1
+		case tokenregistrytypes.Permission_IBCEXPORT:
+			b |= 2
+		case tokenregistrytypes.Permission_IBCIMPORT:
+			b |= 4
+		case tokenregistrytypes.Permission_DISABLE_BUY:
+			b |= 8
+		case tokenregistrytypes.Permission_DISABLE_SELL:
+			b |= 16
+		}
+	}
+	return b
+}
+
+// regEditCase delivers a MsgRegister (op 1) / MsgDeregister (op 2) and encodes registry before, edit, registry after.
+func regEditCase(e *env.Env, id int, op int64, denom string, bits int) (string, chain.TxResult) {
+	pre := regList(e)
+	var res chain.TxResult
+	if op == 1 {
+		res = e.Tx(e.Admin, &tokenregistrytypes.MsgRegister{From: e.Admin.Addr.String(), Entry: regEntry(denom, bits)})
+	} else {
+		res = e.Tx(e.Admin, &tokenregistrytypes.MsgDeregister{From: e.Admin.Addr.String(), Denom: denom})
+	}
+	post := regList(e)
+	en := &env.Enc{}
+	en.I(int64(id)).Len(len(pre))
+	for _, x := range pre {
+		en.I(x[0]).I(x[1])
+	}
+	en.I(op).I(denomIDAny(e, denom)).I(bitsOfPerms(permsOfBits(bits))).Len(len(post))
+	for _, x := range post {
+		en.I(x[0]).I(x[1])
+	}
+	return en.Coq(), res
+}
+
 // C12 — exhaustive permission matrix on the real app + outgoing transfer gate.
 func C12(c Ctx) *report.Report {
 	rep := report.New("C12", c.Seed, c.Tier)
@@ -158,6 +222,7 @@ func C12(c Ctx) *report.Report {
 
 	// ---- outgoing IBC transfers ----
 	var trCases []string
+	var reCases []string
 	trID := 2000000
 	e := env.New(env.Opts{NUsers: 2, Tokens: []string{"cdash", "ceth", "cusdc"}})
 	e.BeginBlock()
@@ -221,7 +286,7 @@ func C12(c Ctx) *report.Report {
 			rep.Sample(replayOf(h, 3))
 		}
 	}
-	rep.Evaluations = next + len(trCases)
+	rep.Evaluations = next + len(trCases) + len(reCases)
 	rep.DistinctNontrivial = countNontrivial(hs) + len(trCases)
 	// corpus: a registry that lists a denom twice (possible through MsgSetRegistry), then MsgDeregister: afterwards the
 	// token must be unknown to the AMM and to the transfer gate
@@ -235,7 +300,8 @@ func C12(c Ctx) *report.Report {
 			reg.Entries = append(reg.Entries, regEntry("ceth", []int{7, 3, 1}[i%3]))
 		}
 		mustOK(e.Tx(e.Admin, &tokenregistrytypes.MsgSetRegistry{From: e.Admin.Addr.String(), Registry: reg}), "set registry")
-		res := e.Tx(e.Admin, &tokenregistrytypes.MsgDeregister{From: e.Admin.Addr.String(), Denom: "ceth"})
+		rc, res := regEditCase(e, 700000+variant, 2, "ceth", 0)
+		reCases = append(reCases, rc)
 		desc := map[string]interface{}{"corpus": "denom listed more than once, then MsgDeregister", "copies": 2 + variant, "deregister_code": res.Code}
 		if res.Code == 0 {
 			left := 0
@@ -256,12 +322,67 @@ func C12(c Ctx) *report.Report {
 		rep.Count("corpus.duplicate-denom-deregister")
 		next++
 	}
+	// corpus: MsgRegister of a denom that is already registered replaces its entry, wherever it stands in the list (first,
+	// middle, last); the gate then follows the new permissions
+	for pos := 0; pos < 3; pos++ {
+		e := env.New(env.Opts{NUsers: 3, Tokens: []string{"ceth", "cusdc"}})
+		e.BeginBlock()
+		mustOK(e.UpdateRewardsParams(0, 0, 0, "", false), "rewards params")
+		mustOK(e.CreatePool(e.Users[0], "ceth", new(big.Int).Mul(big.NewInt(1000), chain.E(18)), new(big.Int).Mul(big.NewInt(2000), chain.E(18))), "create")
+		order := [][]string{{"ceth", "rowan", "cusdc"}, {"rowan", "ceth", "cusdc"}, {"rowan", "cusdc", "ceth"}}[pos]
+		reg := &tokenregistrytypes.Registry{}
+		for _, d := range order {
+			reg.Entries = append(reg.Entries, regEntry(d, 7))
+		}
+		mustOK(e.Tx(e.Admin, &tokenregistrytypes.MsgSetRegistry{From: e.Admin.Addr.String(), Registry: reg}), "set registry")
+		rc, res := regEditCase(e, 700010+pos, 1, "ceth", 2) // IBC export only: no CLP permission
+		reCases = append(reCases, rc)
+		desc := map[string]interface{}{"corpus": "MsgRegister edits an entry in place", "registry_order": order, "register_code": res.Code}
+		if res.Code == 0 {
+			n, perms := 0, ""
+			for _, en := range e.App.TokenRegistryKeeper.GetRegistry(e.Ctx()).Entries {
+				if en != nil && en.Denom == "ceth" {
+					n++
+					perms = fmt.Sprint(en.Permissions)
+				}
+			}
+			if n != 1 {
+				rep.Violate("C12/register-duplicates-entry", fmt.Sprintf("after MsgRegister of a registered denom the registry lists it %d times (last permissions %s)", n, perms), desc)
+			}
+			sw := e.Swap(e.Users[1], "rowan", "ceth", chain.E(18), big.NewInt(0))
+			ad := e.AddLiquidity(e.Users[1], "ceth", chain.E(18), new(big.Int).Mul(big.NewInt(2), chain.E(18)))
+			if sw.Code == 0 || ad.Code == 0 {
+				rep.Violate("C12/amm-after-permission-withdrawn", fmt.Sprintf("CLP permission withdrawn by MsgRegister, yet swap code %d, add code %d", sw.Code, ad.Code), desc)
+			}
+		}
+		rep.Count("corpus.register-edits-in-place")
+		next++
+	}
+	// random registry edits against the model of SetToken / RemoveToken
+	for i := 0; i < c.N(20, 400); i++ {
+		e := env.New(env.Opts{NUsers: 1, Tokens: []string{"ceth", "cusdc"}})
+		e.BeginBlock()
+		denoms := []string{"rowan", "ceth", "cusdc", "cdash", "clink"}
+		reg := &tokenregistrytypes.Registry{}
+		for k := 0; k < rng.Intn(7); k++ {
+			reg.Entries = append(reg.Entries, regEntry(denoms[rng.Intn(len(denoms))], rng.Intn(32)))
+		}
+		if e.Tx(e.Admin, &tokenregistrytypes.MsgSetRegistry{From: e.Admin.Addr.String(), Registry: reg}).Code != 0 {
+			continue
+		}
+		for k := 0; k < 4; k++ {
+			rc, _ := regEditCase(e, 710000+i*10+k, int64(1+rng.Intn(2)), denoms[rng.Intn(len(denoms))], rng.Intn(32))
+			reCases = append(reCases, rc)
+			rep.Count("registry-edit")
+		}
+	}
 	rep.Rule = "exhaustive matrix on the real app: every subset of the five permissions on the pool token x five native-token entries (all, not-sellable, not-buyable, no AMM permission, unregistered) x create / symmetric add / native-only add / external-only add / remove / remove-units / four swap routes, the registry being edited by the real MsgSetRegistry after the pools exist; plus random histories under random registries; plus 128 outgoing transfers (32 permission subsets x plain / alias / unit=denom / unregistered)"
 	rep.Distribution["exhaustive_amm_matrix"] = true
 	var all []Step
 	for _, h := range hs {
 		all = append(all, h.Steps...)
 	}
+	rep.Evaluations = next + len(trCases) + len(reCases)
 	per := 450
 	for s := 0; s*per < len(all); s++ {
 		end := (s + 1) * per
@@ -273,12 +394,12 @@ func C12(c Ctx) *report.Report {
 			items = append(items, st.Enc())
 			rep.CaseIndex[fmt.Sprint(st.ID)] = st.JSON()
 		}
-		tr := "[]"
+		tr, re := "[]", "[]"
 		if s == 0 {
-			tr = coqList(trCases)
+			tr, re = coqList(trCases), coqList(reCases)
 		}
 		writeCases(c, rep, fmt.Sprintf("cases_C12_%d.v", s), "From Sif Require Import Check.C12.\n",
-			fmt.Sprintf("Definition steps : list (list int) := %s.\nDefinition trs : list (list int) := %s.\nDefinition M := Eval vm_compute in (c12_mismatches steps trs).\n", coqList(items), tr))
+			fmt.Sprintf("Definition steps : list (list int) := %s.\nDefinition trs : list (list int) := %s.\nDefinition res : list (list int) := %s.\nDefinition M := Eval vm_compute in (c12_mismatches_re steps trs res).\n", coqList(items), tr, re))
 	}
 	return rep
 }
